@@ -616,7 +616,8 @@ def gen_consumers(r, n):
             vals = [r.choice([1.0, 2.0, 0.5]), r.choice([1.0, 0.5, 2.0]), r.choice([1.0, 3.0]), r.choice([1.0, 0.25])]
             L.append("HW %s %s %s %s %s %s" % (hx(P), hx(c), " ".join(map(hx, vals)), hx(lo), hx(up), hx(x)))
             if P:
-                L.append("HW %s %s %s %s %s %s" % (hx(P), hx(c), " ".join(map(hx, vals)), hx(lo + r.randint(-1, 1) * P), hx(up + r.randint(-1, 1) * P), hx(x + r.randint(-2, 2) * P)))
+                # the same walls and value replaced by periodic images (marked: compared with the line before)
+                L.append("HW %s %s %s %s %s %s IMG" % (hx(P), hx(c), " ".join(map(hx, vals)), hx(lo + r.randint(-1, 1) * P), hx(up + r.randint(-1, 1) * P), hx(x + r.randint(-2, 2) * P)))
     return L
 
 
@@ -647,7 +648,7 @@ def oracle_consumer(line, out, prev):
         sc = uk if dist > 0 else lk
         if not close(E, 0.5 * k * sc / (wd * wd) * dist * dist, 1e-9) or not close(F, -k * sc / (wd * wd) * dist, 1e-9):
             return "harmonic walls: energy %r / force %r do not follow from the displacement %r" % (E, F, dist)
-        if prev is not None and prev[0].split()[1:7] == w[1:7] and prev[0] != line and P:
+        if prev is not None and w[-1] == "IMG" and P:
             po = parse(prev[1])
             if po and (not close(po[1], E, 1e-9)):
                 return "harmonic walls on a periodic variable: energy changes from %r to %r when value and walls are replaced by periodic images (%s vs %s)" % (po[1], E, prev[0], line)
@@ -693,7 +694,7 @@ def oracle_omgroup(g, impl, run):
 def gen_misc(r, n):
     L = []
     for k in range(n):
-        kind = r.choice(["WRAP", "WRAP", "ISC", "IV3", "IUV", "IVEC", "IQ", "IQ", "ACUV", "ACQ", "INN", "MR", "MR"])
+        kind = r.choice(["WRAP", "WRAP", "ISC", "IV3", "IUV", "IVEC", "IQ", "IQ", "ACUV", "ACQ", "INN", "AR", "AR", "ERR", "MR", "MR"])
         lam = r.choice([0.0, 1.0, 0.5, 0.25, V.dyadic(r, 0, 1, bits=6)])
         if kind == "WRAP":
             P = r.choice([360.0, 2.0, 1.0, 8.0, 0.5, 6.0]); c = V.dyadic(r, -4, 4, bits=2)
@@ -728,6 +729,19 @@ def gen_misc(r, n):
             else:
                 nn = r.randint(1, 5)
                 L.append("INN VEC %d %s %s" % (nn, " ".join(hx(V.dyadic(r, -9, 9)) for _ in range(nn)), " ".join(hx(V.dyadic(r, -9, 9)) for _ in range(nn))))
+        elif kind == "AR":
+            t = r.choice(["SC", "UV", "V3", "Q", "VEC"]); f = r.choice([2.0, -0.5, 0.25, 3.0])
+            if t == "SC":
+                L.append("AR SC %s %s %s" % (hx(f), hx(V.dyadic(r, -9, 9)), hx(V.dyadic(r, -9, 9))))
+            elif t in ("UV", "V3"):
+                L.append("AR %s %s %s %s" % (t, hx(f), " ".join(hx(V.dyadic(r, -9, 9)) for _ in range(3)), " ".join(hx(V.dyadic(r, -9, 9)) for _ in range(3))))
+            elif t == "Q":
+                L.append("AR Q %s %s %s" % (hx(f), " ".join(hx(V.dyadic(r, -9, 9)) for _ in range(4)), " ".join(hx(V.dyadic(r, -9, 9)) for _ in range(4))))
+            else:
+                nn = r.randint(1, 5)
+                L.append("AR VEC %s %d %s %s" % (hx(f), nn, " ".join(hx(V.dyadic(r, -9, 9)) for _ in range(nn)), " ".join(hx(V.dyadic(r, -9, 9)) for _ in range(nn))))
+        elif kind == "ERR":
+            L.append(r.choice(["ERR UVD", "ERR QD", "ERR IL %s" % hx(r.choice([-0.25, 1.5, 2.0]))]))
         elif kind == "MR":
             # moving restraint centre on a periodic variable: end points possibly several periods apart / outside the wrap interval
             P = r.choice([360.0, 2.0, 8.0, 0.5]); c = V.dyadic(r, -4, 4, bits=2)
@@ -752,7 +766,7 @@ def gen_obj(r, n):
             m = r.random()
             if m < 0.35:
                 P = r.choice(periods); c = V.dyadic(r, -4, 4, bits=2)
-                w += ["M", hx(P), hx(c)]
+                w += [r.choice(["M", "M", "S"]), hx(P), hx(c)]      # modifycvcs, or the engine-side colvar::set_cvc_param
             elif m < 0.75:
                 x = c + P / 2 * r.choice([-1, 1]) + r.randint(-2, 2) * P if r.random() < 0.3 else c + V.dyadic(r, -3, 3, bits=8) * P
                 w += ["W", hx(x)]
@@ -760,7 +774,7 @@ def gen_obj(r, n):
                 w += ["D", hx(V.dyadic(r, -9, 9) * P / 4), hx(V.dyadic(r, -9, 9) * P / 4)]
             else:
                 w += ["X", hx(V.dyadic(r, -9, 9) * P / 4), hx(V.dyadic(r, -9, 9) * P / 4)]
-        if "M" not in w:
+        if "M" not in w and "S" not in w:
             P = r.choice(periods); c = V.dyadic(r, -4, 4, bits=2)
             w += ["M", hx(P), hx(c), "W", hx(c + V.dyadic(r, -3, 3, bits=8) * P)]
         if "W" not in w and "D" not in w and "X" not in w:
@@ -778,7 +792,7 @@ def oracle_obj(line, out):
     P, c = float.fromhex(w[1]), float.fromhex(w[2])
     i = 3; k = 0
     while i < len(w):
-        if w[i] == "M":
+        if w[i] in ("M", "S"):
             P, c = float.fromhex(w[i + 1]), float.fromhex(w[i + 2]); i += 3
         elif w[i] == "W":
             x = float.fromhex(w[i + 1]); i += 2
@@ -856,6 +870,16 @@ def oracle_misc(line, out):
             return "inner product / squared norm of %r and %r reported as %r" % (a, b, o)
         if w[1] in ("UV", "Q") and abs(o[0]) > 1 + 1e-12:
             return "inner product of two values on the unit sphere is %r" % o[0]
+    elif w[0] == "AR":
+        f = float.fromhex(w[2])
+        v = [float.fromhex(t) for t in (w[4:] if w[1] == "VEC" else w[3:])]
+        nn = len(v) // 2; a, b = v[:nn], v[nn:]
+        want = [x + y for x, y in zip(a, b)] + [x - y for x, y in zip(a, b)] + [f * x for x in a] + [x / f for x in a]
+        if len(o) != 4 * nn or not all(close(x, y) for x, y in zip(o, want)):
+            return "colvarvalue arithmetic on %r and %r (factor %r): sum, difference, product, quotient reported as %r" % (a, b, f, o)
+    elif w[0] == "ERR":
+        if o != [1.0, 1.0]:
+            return "%s: a documented error (distance between derivative-type values / interpolation parameter outside [0,1]) was not raised" % line
     elif w[0] == "MR":
         P, c, x0, x1 = [float.fromhex(t) for t in w[1:5]]
         lams = [float.fromhex(t) for t in w[5:]]
@@ -884,7 +908,8 @@ def check(run):
                        "linearCombination with scalar / 3-vector value, gspathCV/gzpathCV/aspathCV/azpathCV; 6 wrapping centres): dist2/lgrad/rgrad base, swapped, identical, period image, wrapped arguments, sign flip, "
                        "colvar::wrap (30% on the interval edge), +/-h in each argument; OPES kernel-merge groups (base + period image of either centre, 30% across the wrap boundary); "
                        "wrap, interpolate (all types incl. quaternions: 20% opposite, 10% identical end points; 15% antipodal unit vectors), apply_constraints, inner/norm2, moving-restraint centres, "
-                       "sums of 1..5 components (angle, dihedral, distance, distanceZ with period 0/360/50/10, eulerPhi, polarPhi, spinAngle; coefficients +-1, 5% others; exponent 1, 4% 2; config order shuffled; 45% all of period 360 with, in 60% of those, "
+                       "real harmonic restraints on 20 kinds of variables (50% of periodic cases with centre and value on either side of the wrap boundary; equivalent values/centres; +/-h of the energy), "
+                       "harmonic walls and finite-difference velocities across the boundary, colvarvalue arithmetic, documented error branches; sums of 1..5 components (angle, dihedral, distance, distanceZ with period 0/360/50/10, eulerPhi, polarPhi, spinAngle; coefficients +-1, 5% others; exponent 1, 4% 2; config order shuffled; 45% all of period 360 with, in 60% of those, "
                        "one odd component anywhere; values whole periods of some component apart): colvar::init decision + dist2/lgrad/rgrad/wrap; distanceVec in triclinic cells (base, swapped, identical, lattice image, +/-h in each argument; never on the cut), pairs of unit vectors from the pool with opposites and one-ulp neighbours, "
                        "and histories on one periodic variable object (modifycvcs changes of period/wrapAround interleaved with colvar::wrap, colvar::dist2 and wrap-then-dist2 calls). "
                        "distinct = distinct base line; non-trivial = arguments differ")
